@@ -235,7 +235,12 @@ def run(ctx):
     # rule of C08.2 - its findings are findings here
     from . import common as _cm6b, c08 as _c08
     _cm6b.lift(ctx, 'C06.3', 'message-not-lost-to-an-error', _c08, 'C08', ('C08.2',), 'a decoded message must reach the listeners: an error raised while it is resolved drops it from the live view',
-               key_filter=lambda k: 'passthrough-raise:' in k, floor=1)
+               key_filter=lambda k: 'passthrough-raise:' in k, floor=1, soft=True)
+
+    # "matching the current filter" means matching as documented: what a matcher selects is C05 - its findings are findings about the live view
+    from . import c05 as _c05
+    _cm6b.lift(ctx, 'C06.5', 'filter-selects-what-the-documentation-says', _c05, 'C05', ('C05.1', 'C05.2', 'C05.3', 'C05.4', 'C05.5', 'C05.6'),
+               'the live view shows the messages the filter selects: a matcher that selects other messages than documented shows other lines', floor=20, soft=True)
 
     return ('scenario evaluation of the live-view guard, who-calls tables of the display route, transitive write sets of the '
             'filter/selection commands and of all matches() implementations. Decided: %s. Undecided: %s'
